@@ -22,7 +22,7 @@ SEGS = ["users", "pets", "orders", "items", "v1", "reports", "user-groups", "thi
 PVARS = ["id", "user_id", "petId", "order-id", "name"]
 METHODS = ["get", "post", "put", "patch", "delete"]
 QNAMES = ["limit", "offset", "q", "sort-by", "includeDeleted", "since", "filter", "X-Page", "status"]
-HNAMES = ["X-Request-Id", "X-Trace", "Accept-Language", "x-api-version", "If-Match"]
+HNAMES = ["X-Request-Id", "X-Trace", "Accept-Language", "x-api-version", "If-Match", "Accept", "Authorization"]
 
 
 @dataclass
